@@ -268,10 +268,16 @@ CLAIMED["C08"] = (
     "to and the name reference is the cell the name went to; categories of every level lie inside the categories range; XY / "
     "bubble row offsets accumulate so that tables of different series never overlap and each reference covers exactly the "
     "rows written.  Tied to the code by comparing every reference string with the model and by resolving every reference of "
-    "the real chart XML against the embedded workbook read directly from its zip: range size = ptCount, cached point = cell.",
+    "the real chart XML against the embedded workbook read directly from its zip: range size = ptCount, cached point = cell.  "
+    "Date serial numbers (Model/Serial, Props/C08D): the civil-date conversion behind datetime.date subtraction is exact in "
+    "BOTH directions (civil_left_inverse beside C18's civil_roundtrip: day numbers and valid dates are in bijection, any "
+    "year); hence every calendar date decodes from the serial number _excel_date_number gives it, in the 1900 and in the "
+    "1904 system (serial_roundtrip); the 1900 system never yields 60; a later day has a larger serial; the systems differ by "
+    "1462 from 1900-03-01 on and by 1461 before.  Compared with Category._excel_date_number / numeric_str_val on dates across "
+    "datetime's whole range in both systems (number, text, decoded date).",
     "Trusted: XlsxWriter's cell encoding and date conversion (read back from the file), the minimal xlsx reader; empty series "
     "ranges are a listed known finding.",
-    "Lean 4 proof (column-letter bijection, layout arithmetic) + reference/workbook correspondence",
+    "Lean 4 proof (column-letter bijection, layout arithmetic, calendar arithmetic) + reference/workbook/serial correspondence",
     "DESIGN.md §5 C07/C08",
 )
 CLAIMED["C13"] = (
